@@ -169,6 +169,10 @@ func (u *Uploader) upload(ctx context.Context) error {
 			stats.Add(numSumGetFail, 1)
 			u.logger.Printf("failed to get current ID from %s: %v", u.storageClient, err)
 		} else if currID == strconv.FormatUint(li, 10) {
+			// The storage service already has this data. Record that, so it is
+			// not provided again, or even uploaded again should the ID check
+			// fail, on every subsequent round.
+			u.lastIndex = li
 			stats.Add(numUploadsSkippedID, 1)
 			return nil
 		}
